@@ -369,6 +369,7 @@ type schedPlan struct {
 	batchProb float64 // probability of releasing more than one task at once
 	cancelAt  int     // quiescent point index at which cancellation is injected (-1: never)
 	condErr   int     // stage whose condition becomes impossible to evaluate at cancelAt (-1: external Cancel)
+	tight     bool    // no pause between passes: the loop re-examines a stage before its goroutine has run
 }
 
 // nested pipelines need dependencies registered before children: build parents first
@@ -465,7 +466,11 @@ func runSchedCase(p *schedPlan) (obs *schedObs, rel [][]string, buildErr error) 
 		}
 	}
 	sd := scheduler.NewScheduler(r)
-	sd.VerifSetPause(schedPause)
+	if p.tight {
+		sd.VerifSetPause(0)
+	} else {
+		sd.VerifSetPause(schedPause)
+	}
 	ref := newRef(c, "")
 	done := make(chan error, 1)
 	t0 := time.Now()
